@@ -25,6 +25,9 @@ Scenarios ==
    \cup { [call |-> "prepend-shared-list", second |-> s] : s \in {"fails", "succeeds"} }
    \* a SignedAccumulator object that was verified receives OTHER signed bytes by decoding (a witness / update variable is reused)
    \cup { [call |-> "redecode-accumulator", data |-> d, enc |-> c] : d \in {"newer", "garbage"}, c \in Encodings }
+   \* a credential whose witness has the given origin starts a non-revocation proof (gabi.Credential: CreateDisclosureProof with
+   \* nonrev, NonrevPrepareCache, NonrevBuildProofBuilder) - replayed by `nr witapi` on real keys
+   \cup { [call |-> "prove", wit |-> w, via |-> v] : w \in WitOrigins, v \in {"disclose", "prepare", "builder"} }
 
 \* outcome class the caller is owed ("ok" / "error"), and what must hold afterwards
 Expect(s) ==
@@ -35,6 +38,8 @@ Expect(s) ==
      [] s.call = "decode-list" -> [class |-> "ok", post |-> IF s.payload = "empty" THEN "holds-none" ELSE "holds-payload"]    \* and the decoded list verifies
      [] s.call = "witness-update" -> IF s.wit \in {"decoded-no-u", "decoded-no-e"} THEN [class |-> "error", post |-> "unchanged"]
                                      ELSE [class |-> "ok", post |-> "witness-valid-at-new-index"]
+     [] s.call = "prove" -> IF s.wit \in {"decoded-no-u", "decoded-no-e"} THEN [class |-> "error", post |-> "unchanged"]
+                            ELSE [class |-> "ok", post |-> "proof-verifies"]
      [] s.call = "redecode-accumulator" -> IF s.data = "garbage" THEN [class |-> "error", post |-> "unchanged"]
                                            ELSE [class |-> "ok", post |-> "reports-the-new-accumulator"]
      [] s.call = "flatten" -> [class |-> "ok", post |-> IF s.parts = "without-product" THEN "verifies-no-product" ELSE "verifies"]
